@@ -5,7 +5,7 @@
    (settled or not) covers whatever the receiver positions can claim -- for every split of the payer /
    receiver open interest into positions, every funding value and price.  This calibrates the
    monitor C08_ResidualBacked (no slack is needed). *)
-EXTENDS MarketHistProps, TLC
+EXTENDS MarketHistProps, TLC, Json
 CONSTANTS Values, Sizes, PricesSet, Adj
 VARIABLES v1, v2, s1, s2, r1, r2, price, phase
 vars == <<v1, v2, s1, s2, r1, r2, price, phase>>
@@ -38,4 +38,10 @@ InvBracket ==
   (phase = 1 /\ s1 + s2 > 0) =>
     /\ (Owed(s1, PayIdx(v1)) + Owed(s2, PayIdx(v1))) * price >= v1
     /\ (r1 + r2 > 0) => (Claim(r1, RcvIdx(v1)) + Claim(r2, RcvIdx(v1))) * price <= v1
+(* position-size patterns for funding scenarios replayed on the real code (two payers, two receivers
+   of the same collateral token; the glue turns them into open / update_funding / tick / update_funding /
+   settle-all scripts in both settlement orders) *)
+InvEmit ==
+  (phase = 1 /\ v1 = 1 /\ price = 1 /\ s1 > 0 /\ r1 + r2 > 0) =>
+     PrintT("T|" \o ToJson([s1 |-> s1, s2 |-> s2, r1 |-> r1, r2 |-> r2, dt |-> 1 + (v2 % 3)]))
 =============================================================================
